@@ -80,10 +80,11 @@ Definition check_raw_prop (T : tables) (reg_unperm : registry) (c : c01case) : b
               else true
           | None => true
           end
-      | RConnErr =>
-          (* no complete frame (cut short, size below the header or above the limit): nothing may be delivered *)
+      | RConnErr | RInvalid _ | RUnknown _ _ =>
+          (* no complete frame (cut short, size below the header or above the limit), a body too short for
+             the fields of its type, a payload count that contradicts the frame, an unregistered type:
+             nothing may be delivered *)
           match res with RROk _ _ _ => false | _ => true end
-      | _ => true
       end
   | _ => true
   end.
